@@ -165,6 +165,11 @@ func awaitPandoraTermination(pandora *engine.Engine, gracefulShutdown func(), er
 		case sig := <-sigs:
 			log.Fatal("Another signal received. Quiting.", zap.Stringer("signal", sig))
 		case err := <-errs:
+			// Engine run is interrupted, but its tasks (aggregators flushing results) can be still in progress.
+			time.AfterFunc(interruptTimeout, func() {
+				log.Fatal("Interrupt timeout exceeded")
+			})
+			pandora.Wait()
 			log.Fatal("Engine interrupted", zap.Error(err))
 		}
 
